@@ -181,6 +181,11 @@ func singleQuoteState(l *sqlLexer) stateFn {
 		l.pos += width
 
 		switch r {
+		case '\\':
+			// the parser reads a backslash as an escape: the next character
+			// does not close the literal
+			_, width = utf8.DecodeRuneInString(l.src[l.pos:])
+			l.pos += width
 		case '\'':
 			nextRune, width := utf8.DecodeRuneInString(l.src[l.pos:])
 			if nextRune != '\'' {
@@ -205,6 +210,10 @@ func doubleQuoteState(l *sqlLexer) stateFn {
 		l.pos += width
 
 		switch r {
+		case '\\':
+			// as in a single-quoted literal
+			_, width = utf8.DecodeRuneInString(l.src[l.pos:])
+			l.pos += width
 		case '"':
 			nextRune, width := utf8.DecodeRuneInString(l.src[l.pos:])
 			if nextRune != '"' {
